@@ -262,6 +262,19 @@ def d2_reset(ctx, idx, st):
                   if isinstance(c.func, ast.Attribute) and isinstance(c.func.value, ast.Name) and c.func.value.id == rp.params[0]]
         starts = lib.cfg_nodes_for(cfg, parse_calls[0])
         if not resets:
+            # a reset moved into another method of the parser counts as the reset
+            for c in [n for n in walk_own(rp.node) if isinstance(n, ast.Call) and isinstance(n.func, ast.Attribute)
+                      and isinstance(n.func.value, ast.Name) and n.func.value.id == rp.params[0]]:
+                tgt = idx.lookup(rp.cls, c.func.attr) if rp.cls is not None else None
+                if tgt is not None and lib.calls_named(tgt.node, 'reset_storage'):
+                    resets.append(c)
+        if not resets:
+            other = [n for n in walk_own(rp.node) if isinstance(n, ast.Call) and nf.callee_name(n) not in (
+                'parseString', 'parse_string', 'validate', 'MathExpression')]
+            if other or idx.unreviewed:
+                r.undecided('raw_parse: reset_storage', 'no reset_storage call found, but raw_parse calls `%s`' % (
+                    short(other[0]) if other else ', '.join(idx.unreviewed)), rp.loc)
+                return
             r.violation('raw_parse: reset_storage', 'raw_parse no longer calls reset_storage: the names recorded by one parse '
                         '(successful or not) stay in the scratch sets and are reported for the next formula', rp.loc)
             return
@@ -310,8 +323,12 @@ def d3_fresh(ctx, idx, st):
                             expected='self.%s = set()' % f, found=short(muts[0]))
                 continue
             if not binds and not muts:
-                r.violation(construct, 'reset_storage does not reset self.%s: names recorded for one formula are reported for '
-                            'the following ones as well' % f, rs.loc, expected='self.%s = set()' % f)
+                if _only_field_stores(rs) and not idx.unreviewed:
+                    r.violation(construct, 'reset_storage does not reset self.%s: names recorded for one formula are reported for '
+                                'the following ones as well' % f, rs.loc, expected='self.%s = set()' % f)
+                else:
+                    r.undecided(construct, 'no reset of self.%s found, but reset_storage contains statements that were not '
+                                'understood' % f, rs.loc)
                 continue
             if binds:
                 v = binds[-1][1]
@@ -326,7 +343,8 @@ def d3_fresh(ctx, idx, st):
             else:
                 r.ok(construct, 'cleared in place; the expression received a copy', lib.loc(rs, muts[0]))
         # nobody else in MathParser mutates the scratch sets
-        allowed = {a.extra.qualname for t, a in (st['g'].action_sites() if 'g' in st else []) if a.kind == 'method'}
+        g = st.get('g') or G.extract(idx)      # AnalysisError -> undecided: without the grammar the actions are unknown
+        allowed = {a.extra.qualname for t, a in g.action_sites() if a.kind == 'method'}
         for name, fi in sorted(cls.methods.items()):
             if not fi.params:
                 continue
@@ -352,9 +370,41 @@ def d3_fresh(ctx, idx, st):
         init = idx.func(MP + '.__init__')
         for f in wanted:
             binds = _field_binds(init.node, f)
-            good = bool(binds) and (any(nf.match(p, binds[-1][1]) is not None for p in FRESH_SET))
-            r.check(good, 'MathParser.__init__: self.%s' % f, 'starts empty', 'self.%s is not initialised to an empty set' % f,
-                    lib.loc(init, binds[-1][0]) if binds else init.loc)
+            construct = 'MathParser.__init__: self.%s' % f
+            if not binds:
+                via = [c for c in lib.calls_named(init.node, 'reset_storage') if isinstance(c.func, ast.Attribute)
+                       and isinstance(c.func.value, ast.Name) and c.func.value.id == init.params[0]]
+                if via and _field_binds(rs.node, f):
+                    r.ok(construct, 'starts empty (through reset_storage)', lib.loc(init, via[0]))
+                else:
+                    r.undecided(construct, 'no initialisation of self.%s found in __init__' % f, init.loc)
+                continue
+            v = binds[-1][1]
+            if any(nf.match(p, v) is not None for p in FRESH_SET) or (isinstance(v, ast.Set) and not v.elts):
+                r.ok(construct, 'starts empty', lib.loc(init, binds[-1][0]))
+            elif isinstance(v, (ast.Set, ast.Call)) and nf.callee_name(v) in ('set', None) and (getattr(v, 'elts', None) or getattr(v, 'args', None)):
+                r.violation(construct, 'self.%s starts as `%s`, not as an empty set: those names are reported for the first '
+                            'formula parsed' % (f, short(v)), lib.loc(init, binds[-1][0]), expected='set()', found=short(v))
+            else:
+                r.undecided(construct, 'initial value `%s` not recognised' % short(v), lib.loc(init, binds[-1][0]))
+
+
+def _only_field_stores(fi):
+    """Is every statement of fi a docstring, `pass`, or an assignment / mutator call on fields of self?"""
+    me = fi.params[0] if fi.params else None
+    for s_ in fi.node.body:
+        if isinstance(s_, ast.Pass) or (isinstance(s_, ast.Expr) and isinstance(s_.value, ast.Constant)):
+            continue
+        if isinstance(s_, ast.Assign) and isinstance(s_.value, (ast.Constant, ast.Call, ast.Tuple, ast.Set, ast.Name)) \
+                and not any(isinstance(c, ast.Call) and not (isinstance(c.func, ast.Name) and c.func.id in ('set', 'frozenset'))
+                            for c in ast.walk(s_.value)):
+            continue
+        if isinstance(s_, ast.Expr) and isinstance(s_.value, ast.Call) and isinstance(s_.value.func, ast.Attribute) \
+                and isinstance(s_.value.func.value, ast.Attribute) and isinstance(s_.value.func.value.value, ast.Name) \
+                and s_.value.func.value.value.id == me:
+            continue
+        return False
+    return True
 
 
 def _field_binds(fn, field):
@@ -376,7 +426,7 @@ def _field_binds(fn, field):
 # ----------------------------------------------------------------------------- D4
 def d4_cache(ctx, idx, st):
     r = ctx.rule('D4.CACHE', 'the cache is filled only with the result of a raw_parse that returned normally, under the '
-                             'space-stripped key', floor=8)
+                             'space-stripped key', floor=6)
     with r:
         fi = idx.func(MP + '.parse')
         me = fi.params[0]
@@ -396,7 +446,12 @@ def d4_cache(ctx, idx, st):
             where = lib.loc(fi, s)
             snodes = cfg.nodes_of(s)
             if s is st_call:
-                r.undecided('MathParser.parse: cache store', 'store and parse in one statement', where)
+                if s.value is call and len(s.targets) == 1:
+                    r.ok('MathParser.parse: cache store order', 'the store is the assignment of the call\'s own result: it executes '
+                         'only when raw_parse returned', where)
+                    r.ok('MathParser.parse: cached value', 'the MathExpression returned by raw_parse', where)
+                else:
+                    r.undecided('MathParser.parse: cache store', 'store and parse in one statement: `%s`' % short(s), where)
                 continue
             # reachable without the normal completion of the raw_parse statement?
             blocked = set()
@@ -422,19 +477,28 @@ def d4_cache(ctx, idx, st):
                     'the cached value `%s` is not (only) the result of the raw_parse call' % short(v), where)
         # the cached object is what the caller gets, on both paths
         rets = lib.returns_of(fi.node)
+        unknown = []
         for ret in rets:
             v = ret.value
             ok = False
             if isinstance(v, ast.Name):
-                ok = all(d is call for d in lib.assigned_value(fi.node, v.id))
+                defs = lib.assigned_value(fi.node, v.id)
+                ok = bool(defs) and all(d is call or (isinstance(d, ast.Subscript) and nf.match('%s.cache' % me, d.value) is not None)
+                                        or (isinstance(d, ast.Call) and nf.callee_name(d) == 'get' and nf.match('%s.cache' % me, d.func.value) is not None)
+                                        for d in defs)
             elif isinstance(v, ast.Subscript) and nf.match('%s.cache' % me, v.value) is not None:
                 ok = True
             elif isinstance(v, ast.Call) and nf.callee_name(v) == 'get' and nf.match('%s.cache' % me, v.func.value) is not None:
                 ok = True
+            elif v is call:
+                ok = True
             if not ok:
-                r.undecided('MathParser.parse: return', '`%s` not recognised' % short(ret), lib.loc(fi, ret))
-            else:
-                r.ok('MathParser.parse: return', 'the cached / freshly parsed expression itself', lib.loc(fi, ret))
+                unknown.append(ret)
+        if unknown or not rets:
+            r.undecided('MathParser.parse: returns', '`%s` not recognised' % (short(unknown[0]) if unknown else 'no return'),
+                        lib.loc(fi, unknown[0]) if unknown else fi.loc)
+        else:
+            r.ok('MathParser.parse: returns', '%d return(s): the cached / freshly parsed expression itself' % len(rets), lib.loc(fi, rets[0]))
         C03.parse_key_discipline(r, idx)
 
 
@@ -747,6 +811,8 @@ def d7_singleton(ctx, idx, st):
     with r:
         m = idx.module(MOD)
         vals = m.assigns.get('PARSER', [])
+        if not vals:
+            raise AnalysisError('no module-level binding of PARSER found')
         good = len(vals) == 1 and isinstance(vals[0], ast.Call) and nf.callee_name(vals[0]) == 'MathParser' and not vals[0].args
         r.check(good, 'PARSER', 'bound once, to MathParser()', 'PARSER is bound %d time(s)%s' % (
             len(vals), '' if not vals else ' to `%s`' % short(vals[-1])), lib.mloc(m, vals[0]) if vals else m.relpath)
